@@ -83,18 +83,23 @@ var c01ReachN, c01ParkN atomic.Int64 // number of armed recorders / parking requ
 // c01OnEnd calls OnEnd in the current goroutine and reports whether the call passed the processor's own `stopped`
 // check (exact with the hooks; otherwise `stopped` was still false just before the call).
 func c01OnEnd(bsp *batchSpanProcessor, s ReadOnlySpan) bool {
+	flag := &atomic.Bool{}
+	c01OnEndFlag(bsp, s, flag)
+	return flag.Load()
+}
+
+// c01OnEndFlag is c01OnEnd with the flag owned by the caller, so that it can be read while the call is still blocked.
+func c01OnEndFlag(bsp *batchSpanProcessor, s ReadOnlySpan, flag *atomic.Bool) {
 	if !c01HookOn.Load() {
-		before := bsp.stopped.Load()
+		flag.Store(!bsp.stopped.Load())
 		bsp.OnEnd(s)
-		return !before
+		return
 	}
 	id := c01Goid()
-	flag := &atomic.Bool{}
 	c01Reach.Store(id, flag)
 	c01ReachN.Add(1)
 	defer func() { c01Reach.Delete(id); c01ReachN.Add(-1) }()
 	bsp.OnEnd(s)
-	return flag.Load()
 }
 
 func c01Goid() int {
@@ -607,6 +612,7 @@ type c01Ev struct {
 }
 
 type c01HistExp struct {
+	shutDone atomic.Bool // the exporter's Shutdown has returned (the processor calls it after the worker has exited)
 	seq    *atomic.Uint64
 	mu     sync.Mutex
 	evs    []c01Ev
@@ -648,17 +654,38 @@ func (e *c01HistExp) Shutdown(ctx context.Context) error {
 	e.stamp("DS")
 	runtime.Gosched()
 	e.stamp("DE")
+	e.shutDone.Store(true)
 	return nil
 }
 
-// c01Watch runs f; if it does not return within 3 s the history gets a HANG event (a hang is an observation).
-func c01Watch(exp *c01HistExp, f func()) {
+// c01Watch runs f; if it does not return within 3 s the history gets a hang event (a hang is an observation): `tag` is
+// HS for a Shutdown call, HF<fid> / HE<id> for a ForceFlush / End call, and for those the harness adds what it sees
+// of the queue at that moment (white-box): `+` = filled to its capacity, `-` = not. A producer that is blocked while the
+// exporter has already been shut down (the worker has exited) and the queue is full can never be served (known finding
+// F42): that is declared after 300 ms already. It returns false if the call hung.
+func c01Watch(exp *c01HistExp, bsp *batchSpanProcessor, tag string, f func()) bool {
 	done := make(chan struct{})
 	go func() { f(); close(done) }()
-	select {
-	case <-done:
-	case <-time.After(3 * time.Second):
-		exp.stamp("HANG")
+	start := time.Now()
+	for {
+		select {
+		case <-done:
+			return true
+		case <-time.After(100 * time.Millisecond):
+		}
+		full := len(bsp.queue) == cap(bsp.queue)
+		el := time.Since(start)
+		if el >= 3*time.Second || (tag != "HS" && el >= 300*time.Millisecond && full && exp.shutDone.Load()) {
+			if tag != "HS" {
+				if full {
+					tag += "+"
+				} else {
+					tag += "-"
+				}
+			}
+			exp.stamp(tag)
+			return false
+		}
 	}
 }
 
@@ -695,22 +722,20 @@ func c01OneHist(seed uint64) string {
 			for k := 0; k < perProd; k++ {
 				id := p*1000 + k
 				sampled := pr.Intn(8) != 0
-				done := make(chan struct{})
-				accepted := false
-				go func() { accepted = c01OnEnd(bsp, c01Span(id, sampled)); close(done) }()
-				select {
-				case <-done:
-					// only an End that was not refused because of Shutdown counts as "accepted" (the model's `accept`):
-					// with the verif hooks exactly the calls that passed the processor's own stopped check
-					if accepted {
+				// only an End that was not refused because of Shutdown counts as "accepted" (the model's `accept`): with the
+				// verif hooks exactly the calls that passed the processor's own stopped check. An End that does not return
+				// (blocking mode, full queue) gets the hang event HE<id>; the producer then stops.
+				accepted := &atomic.Bool{}
+				if !c01Watch(exp, bsp, "HE"+strconv.Itoa(id), func() {
+					c01OnEndFlag(bsp, c01Span(id, sampled), accepted)
+					if accepted.Load() {
 						if sampled {
 							exp.stamp("E" + strconv.Itoa(id))
 						} else {
 							exp.stamp("U" + strconv.Itoa(id))
 						}
 					}
-				case <-time.After(300 * time.Millisecond):
-					// blocked forever on a full queue after the worker exited (blocking mode): not ended
+				}) {
 					return
 				}
 				if pr.Intn(3) == 0 {
@@ -726,7 +751,7 @@ func c01OneHist(seed uint64) string {
 			defer wg.Done()
 			time.Sleep(time.Duration(fr.Intn(400)) * time.Microsecond)
 			exp.stamp("FC" + strconv.Itoa(f))
-			c01Watch(exp, func() {
+			c01Watch(exp, bsp, "HF"+strconv.Itoa(f), func() {
 				err := bsp.ForceFlush(context.Background())
 				if err == nil {
 					exp.stamp("FR" + strconv.Itoa(f) + "+")
@@ -747,7 +772,7 @@ func c01OneHist(seed uint64) string {
 			defer wg.Done()
 			time.Sleep(delay)
 			exp.stamp("SC")
-			c01Watch(exp, func() {
+			c01Watch(exp, bsp, "HS", func() {
 				err := bsp.Shutdown(context.Background())
 				if err == nil {
 					exp.stamp("SR+")
@@ -761,7 +786,7 @@ func c01OneHist(seed uint64) string {
 	if !withSD {
 		// quiesce: flush, then shut down outside the recorded obligations
 		exp.stamp("FC99")
-		c01Watch(exp, func() {
+		c01Watch(exp, bsp, "HF99", func() {
 			if bsp.ForceFlush(context.Background()) == nil {
 				exp.stamp("FR99+")
 			} else {
@@ -770,7 +795,7 @@ func c01OneHist(seed uint64) string {
 		})
 	}
 	exp.stamp("SC")
-	c01Watch(exp, func() {
+	c01Watch(exp, bsp, "HS", func() {
 		if bsp.Shutdown(context.Background()) == nil {
 			exp.stamp("SR+")
 		}
@@ -798,12 +823,25 @@ func c01OneHist(seed uint64) string {
 	return fmt.Sprintf("hist stress %d %d %d %d | %s => -", capQ, maxB, b, atomic.LoadUint32(&bsp.dropped), strings.Join(ss, " "))
 }
 
+// c01RecordedHists: histories recorded from the real code that are kept as witnesses (also in harness/corpus/C01/hist.trace).
+var c01RecordedHists = []string{
+	// known finding F42, as it hit the unchanged tree under parallel load (VERIF_SEED=101, quick tier; recorded before the
+	// harness said which call hung: HANG): queue capacity 1; ForceFlush 2 was called before the first Shutdown, the marker
+	// of another ForceFlush occupies the queue of the exited worker, ForceFlush 2 blocks at its marker send until the
+	// harness's cleanup drains the queue (FR2+ at the very end). Expected verdict: KNOWN:F42
+	"hist recorded 1 4 0 0 | FC1 FC0 FC2 SC FR1+ E0 FR0+ XS:2000.1000.0 XE DS DE SR+ SC SR+ E1000 E2000 HANG SC SR+ FR2+ => -",
+}
+
 func TestVerifC01Hist(t *testing.T) {
 	out := vOpen(t)
 	defer out.Close()
 	defer c01SafeHandler()()
 	if vReplayLines() != nil {
 		return // free-running histories cannot be re-executed; the replay file holds the history itself
+	}
+	// recorded histories (free-running histories cannot be re-executed): judged again on every run
+	for _, l := range c01RecordedHists {
+		out.Line("%s", l)
 	}
 	n := vN(200)
 	seed := vSeed()
